@@ -122,9 +122,10 @@ def header(decl_names=None, fnames=(), inline=(), place=None):
     return s
 
 
-def source(body, fnames=None, inline=(), decl_names=None, place=None, ports=False):
+def source(body, fnames=None, inline=(), decl_names=None, place=None, ports=False, natural=False):
+    """natural: main's body written with minimal parentheses and braces (render.nstmts) instead of the canonical form"""
     fnames = sorted(render.calls_in(body)) if fnames is None else fnames
-    return (PORTS_C if ports else "") + header(decl_names, fnames, inline, place) + "void main() {\n" + render.stmts(body) + "}\n"
+    return (PORTS_C if ports else "") + header(decl_names, fnames, inline, place) + "void main() {\n" + (render.nstmts(body) if natural else render.stmts(body)) + "}\n"
 
 
 def vt_for(addr, fnames=(), extra=None):
